@@ -1466,9 +1466,10 @@ func (s *session) otherProcess(k int) {
 		}
 		answers = append(answers, a)
 	}
-	if err != nil && len(answers) == 0 {
-		// the child could not be run at all (not a statement about /repo): counted, not judged
-		s.run.Count("validator in another process could not be started")
+	if ee, isExit := err.(*exec.ExitError); err != nil && (!isExit || !ee.Exited()) {
+		// the child could not be started, or was killed from outside (signal): not a statement about /repo -
+		// counted, not judged. (A child that exits by itself - a Go panic in the real code - is judged below.)
+		s.run.Count("validator in another process could not be started or was killed")
 		return
 	}
 	for i, b := range s.blocks {
